@@ -85,13 +85,14 @@ Proof.
   induction m as [|[k0 v0] r IH]; cbn.
   - intros _. rewrite (Z.eqb_sym k k'). destruct (k' =? k); reflexivity.
   - intros [Hlt Hs]. destruct (Z.ltb_spec k k0); cbn.
-    + rewrite (Z.eqb_sym k k'). destruct (Z.eqb_spec k' k) as [->|Hne].
+    + rewrite (Z.eqb_sym k k'). destruct (Z.eqb_spec k' k) as [E|Hne].
       * destruct (Z.eqb_spec k0 k); [lia|].
         assert (lookup k r = None) as ->; [|reflexivity].
         apply lookup_none. intros Hin. specialize (Hlt _ Hin). lia.
       * reflexivity.
     + destruct (Z.eqb_spec k k0) as [->|Hne]; cbn.
-      * destruct (Z.eqb_spec k' k0) as [->|Hne']; [rewrite Z.eqb_refl|]; reflexivity.
+      * destruct (Z.eqb_spec k' k0) as [E|Hne']; [rewrite E, Z.eqb_refl|]; [reflexivity|].
+        destruct (Z.eqb_spec k0 k'); [lia|reflexivity].
       * rewrite (IH Hs). destruct (Z.eqb_spec k0 k'), (Z.eqb_spec k' k), (Z.eqb_spec k0 k); try lia; reflexivity.
 Qed.
 Lemma lookup_put {A} k (v : A) m k' : sorted m ->
@@ -111,8 +112,8 @@ Proof.
   induction m as [|[k0 v0] r IH]; cbn.
   - intros _. destruct (k' =? k); reflexivity.
   - intros [Hlt Hs]. destruct (Z.eqb_spec k0 k) as [->|Hne]; cbn.
-    + destruct (Z.eqb_spec k' k) as [->|Hne'].
-      * apply lookup_none. intros Hin. specialize (Hlt _ Hin). lia.
+    + destruct (Z.eqb_spec k' k) as [E|Hne'].
+      * rewrite E. apply lookup_none. intros Hin. specialize (Hlt _ Hin). lia.
       * destruct (Z.eqb_spec k k'); [lia|reflexivity].
     + rewrite (IH Hs). destruct (Z.eqb_spec k0 k'), (Z.eqb_spec k' k); try lia; reflexivity.
 Qed.
@@ -138,4 +139,96 @@ Proof.
   - intros [Hlt Hs]. destruct (Z.eqb_spec k0 k) as [->|Hne]; [|auto].
     exfalso. specialize (Hlt k). unfold keys in Hlt. rewrite map_app in Hlt. cbn in Hlt.
     assert (k < k) by (apply Hlt; apply in_or_app; right; left; reflexivity). lia.
+Qed.
+
+(* ====================================================================== *)
+(* B. reference counting                                                   *)
+(* ====================================================================== *)
+Definition cnt_opt (id : nat) (p : option ptr) : nat :=
+  match p with Some q => if Nat.eqb (pid q) id then 1 else 0 | None => 0 end.
+Fixpoint cnt_o (id : nat) (m : omapT) : nat :=
+  match m with [] => 0 | (_, p) :: r => cnt_opt id (Some p) + cnt_o id r end.
+Definition cnt_loc (id : nat) (l : loc) : nat :=
+  (cnt_opt id (fst (slots l)) + cnt_opt id (snd (slots l)) + cnt_opt id (held l))%nat.
+
+Lemma cnt_ins id k p m : lookup k m = None -> cnt_o id (ins k p m) = (cnt_o id m + cnt_opt id (Some p))%nat.
+Proof.
+  induction m as [|[k0 p0] r IH]; cbn [lookup ins cnt_o]; intros H; [lia|].
+  destruct (Z.eqb_spec k0 k) as [->|Hne]; [discriminate|].
+  destruct (Z.ltb_spec k k0); cbn [cnt_o]; [lia|].
+  destruct (Z.eqb_spec k k0); [lia|]. cbn [cnt_o]. rewrite (IH H). lia.
+Qed.
+Lemma cnt_del id k p m : lookup k m = Some p -> (cnt_o id (del k m) + cnt_opt id (Some p))%nat = cnt_o id m.
+Proof.
+  induction m as [|[k0 p0] r IH]; cbn [lookup del cnt_o]; intros H; [discriminate|].
+  destruct (Z.eqb_spec k0 k) as [->|Hne]; [inversion H; subst; lia|].
+  cbn [cnt_o]. specialize (IH H). lia.
+Qed.
+Lemma cnt_lookup k p m : lookup k m = Some p -> (1 <= cnt_o (pid p) m)%nat.
+Proof.
+  intros H. rewrite <- (cnt_del (pid p) k p m H). cbn. rewrite Nat.eqb_refl. lia.
+Qed.
+
+Lemma rc_of_app h id : rc_of (h ++ [1%nat]) id = if Nat.eqb id (S (length h)) then 1%nat else rc_of h id.
+Proof.
+  destruct id as [|i]; cbn; [reflexivity|].
+  destruct (Nat.eqb_spec i (length h)) as [->|Hne].
+  - rewrite app_nth2 by lia. rewrite Nat.sub_diag. reflexivity.
+  - destruct (Nat.lt_ge_cases i (length h)).
+    + rewrite app_nth1 by lia. reflexivity.
+    + rewrite !nth_overflow; [reflexivity|lia|rewrite app_length; cbn; lia].
+Qed.
+Lemma rc_of_fresh h : rc_of h (S (length h)) = 0%nat.
+Proof. cbn. apply nth_overflow. lia. Qed.
+
+Lemma nth_upd_nat (h : list nat) i j x : nth j (upd h i x) 0%nat = if Nat.eqb j i then (if Nat.ltb i (length h) then x else 0%nat) else nth j h 0%nat.
+Proof.
+  revert i j; induction h as [|a r IH]; intros [|i] [|j]; cbn; try reflexivity.
+  - destruct (Nat.eqb j i); reflexivity.
+  - rewrite IH. cbn. reflexivity.
+Qed.
+
+Lemma rc_inc_ok h id h' : rc_inc h id = (h', true) ->
+  forall id', rc_of h' id' = if Nat.eqb id' id then S (rc_of h id) else rc_of h id'.
+Proof.
+  unfold rc_inc. destruct id as [|i]; [discriminate|].
+  destruct (nth_error h i) as [[|n]|] eqn:E; try discriminate. intros H; inversion H; subst; clear H.
+  intros [|j]; cbn [rc_of]; [reflexivity|]. rewrite nth_upd_nat. cbn [Nat.eqb].
+  destruct (Nat.eqb_spec j i) as [->|Hne]; [|reflexivity].
+  assert (i < length h)%nat as Hlt by (apply nth_error_Some; congruence).
+  apply Nat.ltb_lt in Hlt. rewrite Hlt. rewrite (nth_error_nth _ _ _ E). reflexivity.
+Qed.
+Lemma rc_inc_alive h id : (0 < rc_of h id)%nat -> exists h', rc_inc h id = (h', true).
+Proof.
+  unfold rc_inc, rc_of. destruct id as [|i]; [lia|]. intros H.
+  destruct (nth_error h i) as [[|n]|] eqn:E.
+  - rewrite (nth_error_nth _ _ _ E) in H. lia.
+  - eexists; reflexivity.
+  - apply nth_error_None in E. rewrite nth_overflow in H by lia. lia.
+Qed.
+Lemma rc_dec_ok h id h' : rc_dec h id = (h', true) ->
+  forall id', rc_of h id' = if Nat.eqb id' id then S (rc_of h' id') else rc_of h' id'.
+Proof.
+  unfold rc_dec. destruct id as [|i]; [discriminate|].
+  destruct (nth_error h i) as [[|n]|] eqn:E; try discriminate. intros H; inversion H; subst; clear H.
+  intros [|j]; cbn [rc_of]; [reflexivity|]. rewrite nth_upd_nat. cbn [Nat.eqb].
+  destruct (Nat.eqb_spec j i) as [->|Hne]; [|reflexivity].
+  assert (i < length h)%nat as Hlt by (apply nth_error_Some; congruence).
+  apply Nat.ltb_lt in Hlt. rewrite Hlt. rewrite (nth_error_nth _ _ _ E). reflexivity.
+Qed.
+Lemma rc_dec_alive h id : (0 < rc_of h id)%nat -> exists h', rc_dec h id = (h', true).
+Proof.
+  unfold rc_dec, rc_of. destruct id as [|i]; [lia|]. intros H.
+  destruct (nth_error h i) as [[|n]|] eqn:E.
+  - rewrite (nth_error_nth _ _ _ E) in H. lia.
+  - eexists; reflexivity.
+  - apply nth_error_None in E. rewrite nth_overflow in H by lia. lia.
+Qed.
+
+(* sums over the thread list *)
+Lemma sum_ge {A} (f : A -> nat) (l : list A) t x : nth_error l t = Some x -> (f x <= list_sum (map f l))%nat.
+Proof.
+  revert t; induction l as [|h r IH]; destruct t; cbn; intros H; try discriminate.
+  - inversion H; subst. Show. lia.
+  - specialize (IH _ H). lia.
 Qed.
